@@ -37,6 +37,7 @@ ShFE == {"full", "empty"}
 DNone == {<<>>}
 DB == {<<>>, <<"B">>}
 DBC == {<<"B">>, <<"C", "B">>, <<"B", "C">>}
+DBC0 == {<<>>, <<"B">>, <<"C", "B">>, <<"B", "C">>, <<"C">>}
 CxLive == {"live"}
 CxBoth == {"live", "canceled"}
 BF == {FALSE}
@@ -58,6 +59,7 @@ SRTimeout == {"timeout"}
 HResp == {"resp"}
 HAll == HResults
 HMain == {"resp", "nil", "false", "respfalse", "err", "resperr"}
+HMain3 == {"resp", "false", "resperr"}
 GNone == {}
 G2 == {2}
 G12 == {1, 2}
@@ -67,7 +69,7 @@ RIds == {None, 4}
 RIdsNone == {}
 LNone == {}
 L12 == {{1, 2}}
-L14_24 == {{2, 4}}
+L12_24 == {{1, 2}, {2, 4}}
 
 RqOf(c, sh) == [shape |-> sh, slot |-> c]
 Args(c) == {x \in {[kind |-> k, from |-> f, peer |-> p, rq |-> RqOf(c, sh), base |-> "A", delims |-> d, sto |-> Sto, nonzero |-> nz, ctx |-> cx] :
